@@ -264,7 +264,8 @@ pub fn gen_bracket(d: &mut Dec, p: &GenParams, depth: usize) -> Bracket {
             };
             let l = gen_operand(d, p, depth);
             let o = op(d);
-            let r = gen_operand(d, p, depth);
+            // a missing right operand (`[[a-c]--]`) is the empty set
+            let r = if d.chance(20) { ClassSet::Items(vec![]) } else { gen_operand(d, p, depth) };
             let mut s = ClassSet::BinOp(o, Box::new(l), Box::new(r));
             if d.chance(48) {
                 // chained: left-associative
